@@ -89,6 +89,12 @@ class C13(Check):
         # a second Bromelia object lives in the same process and registers handlers of its own for the same
         # (and for more) command pairs, before or after this one does: none of them may ever run here
         scn["second_app"] = rng2.choice([None, None, "before", "after"])
+        # re-entrancy: a handler that itself sends a request through the application object and waits for its
+        # answer before it answers the request it was called for
+        for r in reqs:
+            if r["registered"] and r["outcome"] in ("generic", "typed") and rng2.random() < 0.2:
+                r["outcome"] = "nested"
+                r["nested_delay"] = rng2.choice([0.0, 0.001, 0.01])
         return scn
 
     def shrink(self, scn):
@@ -153,6 +159,22 @@ class C13(Check):
             plan = {}       # request hbh (bytes) -> spec
             inflight = set()
 
+            nested = {}
+            nested_bad = []
+
+            def on_send_nested(stub, msg, raw):
+                # the peer answers the requests the handlers send
+                if not msg.header.is_request():
+                    return
+                d = nested.get(msg.header.hop_by_hop.hex())
+                if d is None:
+                    return
+                m_ = C.dec_msg(raw)
+                ans_ = C.enc_msg(C.app_answer(m_["app"], m_["code"], m_["hbh"], m_["e2e"], b"nested;ans", PEER_HOST, PEER_REALM))
+                sim.after(d, lambda: stub.arrive(ans_))
+            for st_ in wb.stubs:
+                st_.on_send = on_send_nested
+
             def make_handler(ai, code):
                 appid = APPS[ai][2]
                 key = (appid, code)
@@ -169,6 +191,17 @@ class C13(Check):
                             # the handler overlaps the dispatch of later requests, then succeeds or fails
                             sim.sleep(spec["slow"])
                             out = out[5:] or "generic"
+                        if out == "nested":
+                            from bromelia.avps import DestinationRealmAVP as _DRA
+                            nreq = DiameterRequest(application_id=appid, command_code=316, avps=[
+                                SessionIdAVP(b"nested;" + hb.hex().encode()), OriginHostAVP(LOCAL_HOST),
+                                OriginRealmAVP(LOCAL_REALM), _DRA(PEER_REALM)])
+                            nested[nreq.header.hop_by_hop.hex()] = spec.get("nested_delay", 0.0)
+                            stats["nested_sends"] = stats.get("nested_sends", 0) + 1
+                            got = app.send_message(nreq)
+                            if got is None or got.header.hop_by_hop != nreq.header.hop_by_hop:
+                                nested_bad.append((hb.hex(), None if got is None else got.header.hop_by_hop.hex()))
+                            out = "generic"
                         if out == "none":
                             return None
                         if out == "wrong_req":
